@@ -900,35 +900,68 @@ def sum_term(n, body, real=True):
 
 
 def sum_axioms(relevant=None):
-    """Pairwise extensionality axioms (skolemised, quantifier-free, sound):
+    """Extensionality axioms (skolemised, quantifier-free, sound):
        n_a == n_b and body_a(j*) == body_b(j*) at a fresh j* in range  ==>  sum_a == sum_b.
-    Only sums whose constant occurs in `relevant` (set of symbol names) are paired; axioms are cached
-    per pair; sums created while instantiating bodies here are not paired again (no cascade)."""
-    ax = []
+    Sums whose constant occurs in `relevant` (goal / path condition symbols) are paired with each other;
+    for every pair, the sums referenced by the two instantiated bodies (nested sums) are paired side by side,
+    recursively to depth 3.  Axioms are cached per pair."""
+    from .sym import term_syms
     cache = CTX.sqrt_terms.setdefault('sum_ax_cache', {})
-    sums = [x for x in list(CTX.sums) if relevant is None or str(x[0].t) in relevant]
-    n_before = len(CTX.sums)
-    for i in range(len(sums)):
-        for j in range(i + 1, len(sums)):
-            sa, na, ba = sums[i]
-            sb, nb, bb = sums[j]
-            key = (str(sa.t), str(sb.t))
-            if key not in cache:
-                CTX.counter += 1
-                js = Sym(z3.Int(f"jext!{CTX.counter}"), 'int')
-                va, vb = ba(js), bb(js)
-                if isinstance(va, SCplx) or isinstance(vb, SCplx):
-                    cache[key] = None
+    by_name = {str(x[0].t): x for x in CTX.sums}
+    out = []
+    seen = set()
+
+    def refs(v):
+        if isinstance(v, SCplx):
+            return refs(v.re) | refs(v.im)
+        if isinstance(v, Sym):
+            return {n for n in term_syms(v.t) if n.startswith('Sum!')}
+        return set()
+
+    def pair(A, B, depth):
+        sa, na, ba = A
+        sb, nb, bb = B
+        ka, kb = str(sa.t), str(sb.t)
+        if ka == kb:
+            return
+        key = (ka, kb) if ka < kb else (kb, ka)
+        if key in seen:
+            return
+        seen.add(key)
+        if key not in cache:
+            CTX.counter += 1
+            js = Sym(z3.Int(f"jext!{CTX.counter}"), 'int')
+            va, vb = ba(js), bb(js)
+            for x in CTX.sums:
+                by_name.setdefault(str(x[0].t), x)
+            if isinstance(va, SCplx) or isinstance(vb, SCplx):
+                cache[key] = (None, set(), set())
+            else:
+                same = eq(va, vb)
+                neq_n = Not(eq(na, nb))
+                if isinstance(same, Sym) and z3.is_true(z3.simplify(same.t)):
+                    same = True
+                if isinstance(neq_n, Sym) and z3.is_false(z3.simplify(neq_n.t)):
+                    neq_n = False
+                if same is True:
+                    ax = Or(neq_n, sa == sb)
                 else:
-                    same = eq(va, vb)
-                    neq_n = Not(eq(na, nb))
-                    diff = And(js >= 0, js < na, Not(same))
-                    cache[key] = Or(neq_n, diff, sa == sb)
-            if cache[key] is not None:
-                ax.append(cache[key])
-    # nested sums created by the instantiation above stay registered (they may be compared later) but are
-    # marked so that they do not trigger a cascade
-    return ax
+                    ax = Or(neq_n, And(js >= 0, js < na, Not(same)), sa == sb)
+                cache[key] = (ax, refs(va), refs(vb))
+        ax, ra, rb = cache[key]
+        if ax is not None:
+            out.append(ax)
+        if depth < 3:
+            for x in ra:
+                for y in rb:
+                    if x in by_name and y in by_name:
+                        pair(by_name[x], by_name[y], depth + 1)
+
+    prim = [x for x in list(CTX.sums) if relevant is None or str(x[0].t) in relevant]
+    for i in range(len(prim)):
+        for j in range(i + 1, len(prim)):
+            pair(prim[i], prim[j], 0)
+    return out
 
 
 # =====================================================================================
@@ -1930,3 +1963,94 @@ def _time_mjd(interp, t):
 
 LIBATTR[('Time', 'unix')] = _time_unix
 LIBATTR[('Time', 'mjd')] = _time_mjd
+
+
+# numpy.fft: the DFT *definition* X[k] = sum_b x[b] * (cos(2 pi b k / n) - i sin(2 pi b k / n)) with the twiddle factors
+# as uninterpreted functions of (b, k, n) ------------------------------------------------------------------------------
+
+TW_C = z3.Function('tw_cos', z3.IntSort(), z3.IntSort(), z3.IntSort(), z3.RealSort())
+TW_S = z3.Function('tw_sin', z3.IntSort(), z3.IntSort(), z3.IntSort(), z3.RealSort())
+
+
+def twiddle(b, k, n):
+    a = [Sym.lift(v).as_int() for v in (b, k, n)]
+    return Sym(TW_C(*a), 'real'), Sym(TW_S(*a), 'real')
+
+
+def dft_at(row_at, n, k):
+    """DFT bin k of the length-n sequence row_at(b) (elements real or complex) as Sum terms."""
+    probe = row_at(CTX.fresh('bprobe', 'int'))
+    if isinstance(probe, SCplx):
+        def re_body(b):
+            c, s = twiddle(b, k, n)
+            v = SCplx.lift(row_at(b))
+            return v.re * c + v.im * s
+
+        def im_body(b):
+            c, s = twiddle(b, k, n)
+            v = SCplx.lift(row_at(b))
+            return v.im * c - v.re * s
+    else:
+        def re_body(b):
+            c, s = twiddle(b, k, n)
+            return row_at(b) * c
+
+        def im_body(b):
+            c, s = twiddle(b, k, n)
+            return -(row_at(b) * s)
+    return SCplx(sum_term(n, re_body), sum_term(n, im_body))
+
+
+def _fft_common(interp, a, n, axis, nbins):
+    a = _as_arr(a)
+    ax = conc_int(axis)
+    if ax is None:
+        raise Unsupported("fft symbolic axis")
+    if ax < 0:
+        ax += a.ndim
+    if n is None:
+        n = a.shape[ax]
+    else:
+        same = eq(n, a.shape[ax])
+        if not (same is True) and not interp.branch(same):
+            raise Unsupported("fft with zero-padding / truncation (n != axis length)")
+    snap = a._snapshot()
+    out_shape = tuple(nbins(n) if d == ax else s for d, s in enumerate(a.shape))
+
+    def fn(idx):
+        k = idx[ax]
+        return dft_at(lambda b: snap(tuple(b if d == ax else idx[d] for d in range(a.ndim))), n, k)
+    return SArr(out_shape, _memo(fn), 'complex')
+
+
+@lib('numpy.fft.fft')
+def np_fft(interp, a, n=None, axis=-1, **k):
+    return _fft_common(interp, a, n, axis, lambda m: m)
+
+
+@lib('numpy.fft.rfft')
+def np_rfft(interp, a, n=None, axis=-1, **k):
+    return _fft_common(interp, a, n, axis, lambda m: m // 2 + 1)
+
+
+@lib('numpy.fft.fftshift')
+def np_fftshift(interp, a, axes=None):
+    a = _as_arr(a)
+    ax = conc_int(axes)
+    if ax is None:
+        raise Unsupported("fftshift over all axes")
+    if ax < 0:
+        ax += a.ndim
+    n = a.shape[ax]
+    snap = a._snapshot()
+    # out[i] = in[(i - n//2) mod n]
+    return SArr(a.shape, lambda idx: snap(tuple(((idx[d] - n // 2) % n) if d == ax else idx[d] for d in range(a.ndim))), a.dtype)
+
+
+@lib('scipy.signal.firwin')
+def scipy_firwin(interp, numtaps, cutoff=None, window='hamming', scale=True, **k):
+    """Trusted: returns `numtaps` real coefficients (uninterpreted function of index, length, window name)."""
+    CTX.counter += 1
+    f = z3.Function(f"firwin_{window if isinstance(window, str) else 'w'}", z3.IntSort(), z3.IntSort(), z3.RealSort())
+    nt = Sym.lift(numtaps).as_int()
+    return SArr((numtaps,), lambda idx: Sym(f(nt, Sym.lift(idx[0]).as_int()), 'real'), 'real')
